@@ -311,7 +311,7 @@ def all_structures(n, atoms=('p', 'q')):
 
 
 def random_structure(rng, nmax=6, atoms=('p', 'q')):
-    n = rng.randint(1, nmax)
+    n = rng.choice([1] + list(range(2, nmax + 1)) * 3 + [nmax] * 2)
     succ = []
     for s in range(n):
         k = rng.choice([1, 1, 1, 2, 2, 3])
